@@ -66,8 +66,11 @@ type LLEnv struct {
 	// Choose, when set, resolves environment choices (ring buffer reservation, adjust_tail success, opaque LPM hit, ...)
 	// deterministically instead of forking; tag identifies the choice.
 	Choose func(tag string) bool
-	// NoIfConversion disables the merging of small triangles/diamonds (then every symbolic branch forks).
-	NoIfConversion bool
+	// IfConversion selects how small triangles/diamonds below symbolic branches are handled: "" or "pure" (default):
+	// side blocks without stores are executed under a guard and merged (phi -> ite) instead of forking; "full": also
+	// side blocks with stores (conditional stores; fewer paths but much heavier solver queries); "off": always fork.
+	// The environment variable VERIF_LLIR_SPEC sets the default.
+	IfConversion string
 	// Cover, when non-nil, records the executed basic blocks as "function:block".
 	Cover map[string]bool
 	// KtimeLog collects the values returned by bpf_ktime_get_ns on this path.
